@@ -12,6 +12,7 @@ pub mod responder;
 pub mod c07;
 pub mod c09;
 pub mod c10;
+pub mod c11;
 pub mod c12;
 pub mod c13;
 pub mod c16;
@@ -30,6 +31,7 @@ pub fn run(id: &str, tier: Tier) -> i32 {
         "C07" => c07::run(tier),
         "C09" => c09::run(tier),
         "C10" => c10::run(tier),
+        "C11" => c11::run(tier),
         "C12" => c12::run(tier),
         "C13" => c13::run(tier),
         "C16" => c16::run(tier),
@@ -54,6 +56,7 @@ pub fn replay(id: &str, file: &Path) -> i32 {
         "C07" => c07::replay(file),
         "C09" => c09::replay(file),
         "C10" => c10::replay(file),
+        "C11" => c11::replay_file(file),
         "C12" => c12::replay(file),
         "C13" => c13::replay(file),
         "C16" => c16::replay(file),
